@@ -168,3 +168,5 @@ where
         verif_spawn_and_forget(future, move |r, t: usize| schedule_fn(VRunnable(r), t), tag);
     (VRunnable(r), VCancelToken(c))
 }
+
+pub use crate::channel::verif::VQueue;
